@@ -148,7 +148,7 @@ func TestC11Pairs(t *testing.T) {
 		PacketW: 60, AdminW: 25, EnvW: 15,
 		Packet: func(rt *rapid.T) kit.Transfer { return genC08Probe(rt, w) },
 		Admin:  kit.AdminOpt{ForeignSignerPct: 5, InvalidPct: 5},
-		Env:    kit.EnvOpt{Kinds: []string{"reescrow", "ftf_pause", "ftf_unpause", "blacklist", "unblacklist", "burn_limit"}},
+		Env:    kit.EnvOpt{Kinds: []string{"reescrow", "ftf_pause", "ftf_unpause", "blacklist", "unblacklist", "burn_limit", "next_block"}},
 	}
 	rapid.Check(t, func(rt *rapid.T) {
 		c := caseC11{Prefix: kit.GenHistory(rt, prefixOpt)}
